@@ -269,7 +269,15 @@ def expected_box(box):
 def run_session(session, path, seam, ctx, prop):
     """Drive a GroFile writer; returns True if it completed."""
     from gaddlemaps.parsers import GroFile
-    f = GroFile(path, "w")
+    rel_cwd = None
+    if prop == "C13" and len(session["records"]) % 7 == 3:
+        # opened through a RELATIVE name; the working directory is another one by the time the writer is closed
+        rel_cwd = os.getcwd()
+        os.chdir(os.path.dirname(path))
+        f = GroFile(os.path.basename(path), "w")
+        ctx.probe("relative_path_cwd_changed_before_close")
+    else:
+        f = GroFile(path, "w")
     fid = len(seam.files) - 1
 
     def set_box():
@@ -331,11 +339,17 @@ def run_session(session, path, seam, ctx, prop):
             f.writeline(r)
     if session["box_late"]:
         set_box()
-    if session["use_with"]:
-        with f:
-            pass
-    else:
-        f.close()
+    try:
+        if rel_cwd is not None:
+            os.chdir(rel_cwd)
+        if session["use_with"]:
+            with f:
+                pass
+        else:
+            f.close()
+    finally:
+        if rel_cwd is not None:
+            os.chdir(rel_cwd)
     return fid
 
 
